@@ -137,6 +137,45 @@ def real_status(P, be, cached=False, cache_file=None):
     return header, rows, total, out
 
 
+def real_graph_counts(P, be):
+    """the per-name counters `jug graph` writes into its dot file (a third copy of the status classifier): {name: [failed, waiting, ready, complete, active]}"""
+    import re
+    import shutil
+    import jug.subcommands.graph as gr
+    o = jugenv.options()
+    d = os.path.dirname(P['path'])
+    o.jugfile = P['path']
+    o.graph_no_status = False
+    o.graph_format = 'png'
+    reset_jug()
+    saved_cc = gr.check_call
+
+    def no_dot(*a, **k):
+        raise FileNotFoundError('dot')          # rendering is not part of the property; the dot file is
+    gr.check_call = no_dot
+    saved_err = getattr(gr, 'stderr', None)
+    if saved_err is not None:
+        gr.stderr = io.StringIO()
+    import contextlib
+    try:
+        s = be.store()
+        jug.task.Task.store = s
+        store, space = jug.jug.init(P['path'], store=s)
+        with contextlib.redirect_stderr(io.StringIO()):
+            gr.graph.run(store=store, options=o)
+        text = open(os.path.splitext(P['path'])[0] + '.dot').read()
+    finally:
+        gr.check_call = saved_cc
+        if saved_err is not None:
+            gr.stderr = saved_err
+        reset_jug()
+    rows = {}
+    for m in re.finditer(r'"([^"]+)" \[label=<.*?<b>(\d+)F</b>.*?<b>(\d+)W</b>.*?<b>(\d+)R</b>.*?<b>(\d+)A</b>.*?<b>(\d+)C</b>', text):
+        name, f, w, r, a, c = m.group(1), int(m.group(2)), int(m.group(3)), int(m.group(4)), int(m.group(5)), int(m.group(6))
+        rows[name] = [f, w, r, c, a]
+    return rows
+
+
 def real_check(P, be):
     import jug.subcommands.check as ck
     reset_jug()
